@@ -193,6 +193,32 @@ CHECKS = {
             "and equal to simple compounding of the initial curve for 1..6 periods.",
             "Driver paths are the library's own random paths (numpy seeded per case), captured by a wrapper; the "
             "correctness of those paths is C15's and C03's subject."),
+    "C11": ("3/C11",
+            "Hypothesis-generated copula parameters, argument vectors and rectangles over 12 decades and all orthants; "
+            "validity predicates (grounded, volume >= 0, margins = identity), monotonicity and round trip of the "
+            "Clayton conditional distribution, high-precision (mpmath) mixed partial derivative",
+            "Exploration: Clayton (theta in [0.2,5], eta in [0,1] incl. both end points), independent and completely "
+            "dependent copulas in d=2,3: F vanishes when an argument is 0, every generated rectangle of (-inf,inf]^d "
+            "(each coordinate positive, negative, straddling, touching zero, or with an infinite upper side) has "
+            "volume >= 0, the one-dimensional margins (through the library's margin operator) are the identity, the "
+            "2-margins of 3-d copulas are 2-increasing; the Clayton conditional distribution is in [0,1], "
+            "non-decreasing with limits 0 and 1 and the stated inverse inverts it in both orders; x_first_derivative is "
+            "compared with the 40-digit mixed partial of the formula times prod(u) (currently a listed known finding).",
+            "Rectangles have at most one infinite side (F is infinite only at (inf,..,inf)); the re-typed Clayton "
+            "formula used for differentiation is first compared with the library's value at the point."),
+    "C12": ("3/C12",
+            "Hypothesis-generated copula models and rectangles (every sign pattern, finite and half-infinite sides, "
+            "index subsets, splits next to zero); oracles = non-negativity, additivity, fast path vs general formula, "
+            "harness reference mass, quadrature of marginal densities, round trips, fresh-model differential",
+            "Exploration: for copula models over all margin families (d=2,3; Clayton incl. eta end points, "
+            "independent, dependent) the mass of generated rectangles not containing the origin must be >= 0, equal "
+            "the general n-d formula on every sign pattern (incl. two straddling coordinates in 3-d), equal the "
+            "harness reference (quadrature tail integrals + re-typed copula + own inclusion-exclusion), be additive "
+            "over a split along any axis (incl. splits at +-1e-3..1e-12 next to zero); marginal masses equal "
+            "quadrature of the marginal density and bound the off-axis mass; sub-margin masses equal the I-margins; "
+            "the inverse tail integral inverts the tail integral both ways; a fresh model returns the same values.",
+            "'Split at zero' is approximated by splits at +-delta because tail integrals are defined on R minus {0}; "
+            "joint-density integration (dblquad) for Clayton is part of C01's copula sub-check."),
 }
 
 NOT_YET = "check not built yet in this session; will be claimed when its module exists"
